@@ -16,11 +16,7 @@
 
 package nbs
 
-import (
-	"encoding/binary"
-
-	"github.com/dolthub/dolt/go/store/hash"
-)
+import "github.com/dolthub/dolt/go/store/hash"
 
 // Property-level lemmas (ghost code). Each is verified from the contracts of the functions it calls.
 
@@ -47,14 +43,4 @@ func verif_lemma_chunkrec_roundtrip(buf []byte, c CompressedChunk) {
 
 func verif_lemma_c10_suffix_any_index(ti onHeapTableIndex, idx uint32, h *hash.Hash) {
 	_, _ = ti.entrySuffixMatches(idx, h)
-}
-
-func verif_lemma_be_put32(b []byte, v uint32) {
-	binary.BigEndian.PutUint32(b, v)
-	verif_assert(verif_be32(b) == v)
-}
-
-func verif_lemma_be_put64(b []byte, v uint64) {
-	binary.BigEndian.PutUint64(b, v)
-	verif_assert(verif_be64(b) == v)
 }
